@@ -139,14 +139,15 @@ Definition read_string (vt : option tyc) (lst : option (larm * lpay)) (j5 : opti
                 let looks_like_key :=
                   key0 || is_some fkrules || is_some key
                   || match fmt with Some SfId62 => true | _ => false end
-                  || match j5 with Some XKey => true | _ => false end in
+                  || match j5 with Some (XKey _) => true | _ => false end in
                 if negb looks_like_key
                 then Ok (TStr None rules open_text)
                 else Ok (TKey (match fmt with
                                | Some SfUuid => Some KUuid
                                | Some SfId62 => Some KId62
                                | Some SfNatural => Some KInformal
-                               | None => None
+                               (* otherwise what the key annotation says *)
+                               | None => match j5 with Some (XKey f) => f | _ => None end
                                end)
                               (match key with
                                | Some k =>
